@@ -134,7 +134,7 @@ def _frame(hists, latest, recorded, dtype):
             elif recorded == "consistent":
                 pev = (T[i] / T[-1] * latest) if T[-1] else 0.0
             else:
-                pev = float((n - i) * 7 % 100)  # garbage, non-monotone
+                pev = 99.5 - 3 * i if i % 2 == 0 else float((n - i) * 7 % 100)  # garbage: non-monotone, and above the latest percent (revised downwards after the fact)
             w = d + g
             rows.append(
                 {
